@@ -458,7 +458,7 @@ def check_ni(ctx, facts, fn_name):
         ctx.violate("C02.3", F, "returned-data-depends-on-checkpoint", body.relfile, body.line, "temporaries %s depend on `checkpoint` and flow into the returned value" % ls[:5])
     else:
         ctx.ok("C02.3", F, "no checkpoint-dependent local in the data slice of the return value", body.relfile, body.line, "%d tainted locals, %d locals in return slice" % (len(t.t), len(ret_locals)))
-    ctx.floor("C02.3", "checkpoint-dependent branches in " + F, len(t.branches), 3)
+    ctx.floor("C02.3", "checkpoint-dependent branches in " + F, len(t.branches), 1)
 
 
 def run(ctx):
@@ -468,9 +468,9 @@ def run(ctx):
     eff = Effects(facts)
     b1, r1, g1, e1 = check_read_fn(ctx, facts, eff, "read_next", need_stateful=False)
     b2, r2, g2, e2 = check_read_fn(ctx, facts, eff, "batch_read_for_topic", need_stateful=True)
-    ctx.floor("C02.1", "flag-guarded effect sites in read_next", g1, 12)
-    ctx.floor("C02.1", "flag-guarded effect sites in batch_read_for_topic", g2, 3)
-    ctx.floor("C02.1", "effect sites found in the read paths", len(r1) + len(r2), 40)
+    ctx.floor("C02.1", "flag-guarded effect sites in read_next", g1, 2)
+    ctx.floor("C02.1", "flag-guarded effect sites in batch_read_for_topic", g2, 1)
+    ctx.floor("C02.1", "effect sites found in the read paths", len(r1) + len(r2), 10)
     check_stateless_readonly(ctx, facts)
     check_ni(ctx, facts, "read_next")
     check_ni(ctx, facts, "batch_read_for_topic")
